@@ -35,6 +35,11 @@ type Obligation struct {
 	Reproduced bool
 }
 
+type wrec struct {
+	key  heapKey
+	base string // reference written ("*" = whole array havocked)
+}
+
 type deferred struct {
 	call  *ast.CallExpr
 	guard Term // condition under which the defer was registered
@@ -114,6 +119,17 @@ type FnCtx struct {
 	keyObj      map[heapKey]*types.Var
 	dry         int
 	owned       []ownedRef
+	fnBody      *ast.BlockStmt
+	fnSig       *types.Signature
+	fnPos       token.Pos
+	trace       map[any]bool
+	invKeys     map[*Clause]map[any]bool
+	invCallOrd  int
+	ptrArgs     []Term
+	wlog        []wrec   // field-array writes (for the fresh-writes-only analysis of loop bodies)
+	alog        []string // references allocated
+	freshOnly   map[any]bool
+	loopPkgInvs map[int][]*Clause
 	specDepth   int
 	qdepth      int
 	keyTypes    map[any]types.Type
@@ -304,6 +320,9 @@ func (fc *FnCtx) keyName(k any) string {
 
 // get returns the current value of a heap/global key in st.
 func (fc *FnCtx) get(st *State, k any, sort string, t types.Type) Term {
+	if fc.trace != nil {
+		fc.trace[k] = true
+	}
 	if v, ok := st.vars[k]; ok {
 		return v
 	}
